@@ -29,6 +29,7 @@ ASSUMPTIONS = ["segmentation is simulated at the socket API (recv return "
 REQUIRED = ["reads", "delivered", "cuts_inside_header", "cuts_inside_body",
             "held_partial", "ctl_cases", "sw_cases", "over_2048",
             "handshake_streams", "reads_inside_a_handler", "hello_with_body", "ctl_endpoints_with_the_nicira_unpacker",
+            "ctl_endpoints_with_the_connection_s_own_idle_handlers",
             "moments_with_several_partial_messages", "handlers_that_raised",
             "sw_first_read_while_connecting", "sw_over_8192",
             "handshake_prefixes_segmented",
@@ -154,10 +155,12 @@ class Endpoint (object):
   the real switch-side IOWorker + OFConnection on a scripted socket, a
   recording handler, and the oracle over the bytes pulled so far."""
   def __init__ (self, side, msgs, rep, fire, connecting=False, raise_at=(), tag="",
-                nicira=False):
+                nicira=False, real_table=False):
+    self.skipped = set()
     self.side = side; self.msgs = msgs; self.rep = rep; self.fire = fire
     self.stream = b"".join(msgs)
     self.exp = [delivered_form(m) for m in msgs]
+    self.all_msgs = msgs
     self.bounds = [0]
     for m in msgs: self.bounds.append(self.bounds[-1] + len(m))
     self.rec = Recorder(raise_at)
@@ -170,7 +173,20 @@ class Endpoint (object):
       if nicira: rep.count("ctl_endpoints_with_the_nicira_unpacker")
       self.sock = simnet.FakeSocket("c02" + tag)
       self.con = of_01.Connection(self.sock)
-      self.con.handlers = [self.rec.ctl_handler] * 32
+      if real_table:
+        # the connection's own handler table with only the handlers that do
+        # something replaced by the recorder: message types the controller
+        # has no use for (those a switch should never send) keep their
+        # do-nothing handler, and are framed and skipped like any other
+        hs = list(self.con.handlers)
+        idle = set(t for t, h in enumerate(hs)
+                   if getattr(h, "__func__", h) is of_01.OpenFlowHandlers.handle_default)
+        self.con.handlers = [h if t in idle else self.rec.ctl_handler
+                             for t, h in enumerate(hs)]
+        self.skipped = idle | set(range(len(hs), 256))
+        rep.count("ctl_endpoints_with_the_connection_s_own_idle_handlers")
+      else:
+        self.con.handlers = [self.rec.ctl_handler] * 32
     else:
       import pox.lib.ioworker as iow
       import pox.datapaths.switch as sw
@@ -227,7 +243,11 @@ class Endpoint (object):
       # messages wholly contained in the pulled prefix
       k = 0
       while k < len(msgs) and bounds[k + 1] <= P: k += 1
-      if rec.got != exp[:k]:
+      if self.skipped:
+        exp_k = [exp[i] for i in range(k) if msgs[i][1] not in self.skipped]
+      else:
+        exp_k = exp[:k]
+      if rec.got != exp_k:
         n = len(rec.got)
         if n > k:
           what = "delivered early/extra"
@@ -257,7 +277,8 @@ class Endpoint (object):
     return any(self.bounds[i] < P < self.bounds[i + 1] for i in range(len(self.msgs)))
 
   def finish (self):
-    if self.ok and self.rec.got != self.exp:
+    if self.ok and self.rec.got != [e for e, m in zip(self.exp, self.msgs)
+                                    if m[1] not in self.skipped]:
       self.fire("final delivery differs", "%d of %d" % (len(self.rec.got), len(self.msgs)))
       self.ok = False
     self.rep.count("delivered", len(self.rec.got))
@@ -288,7 +309,8 @@ def run_case (case, rep):
   if case.get("raise_at"):
     raise_at = [i % len(msgs) for i in case["raise_at"]]
   ep = Endpoint(side, msgs, rep, fire, connecting=case.get("connecting", False),
-                raise_at=raise_at, nicira=case.get("nicira", False))
+                raise_at=raise_at, nicira=case.get("nicira", False),
+                real_table=case.get("real_table", False))
   # classify cuts
   inside_hdr = inside_body = 0
   for c in cuts:
@@ -667,6 +689,9 @@ def run (spec, rep):
     # the Nicira extension loaded (its unpacker handles all vendor messages)
     if case.get("side") == "ctl" and case.get("kind") is None and n % 3 == 0:
       case["nicira"] = True
+    if case.get("side") == "ctl" and case.get("kind") is None and n % 4 == 1 \
+       and not case.get("raise_at"):
+      case["real_table"] = True
     try:
       if case.get("kind") == "hs": run_hs(case, rep)
       elif case.get("kind") == "multi": run_multi(case, rep)
